@@ -314,6 +314,28 @@ _STDLIB_ROOTS = ("os", "re", "json", "six", "hashlib", "codecs", "itertools", "o
 _CONSUMERS = ("sorted", "set", "frozenset", "list", "tuple", "any", "all", "sum", "min", "max", "dict")
 
 
+def simplify_boolop(x):
+    """and/or with literal operands, preserving the *value* (not only the truth value): a neutral literal that is not the last
+    operand disappears (``True and x`` is x, ``None or x`` is x), operands after an absorbing literal are never evaluated
+    (``False and x`` is False).  ``x or False`` stays: its value is not x's.  None if nothing to do"""
+    if x[0] != "boolop":
+        return None
+    op, xs = x[1], list(x[2])
+    absorbing = (op == "or")
+    out = []
+    for i, y in enumerate(xs):
+        lit = y[0] == "const" and isinstance(y[1], (bool, type(None)))
+        if lit and bool(y[1]) == absorbing:
+            out.append(y)
+            break                       # the rest is never evaluated
+        if lit and i < len(xs) - 1:
+            continue                    # neutral, and not the value of the whole
+        out.append(y)
+    if len(out) == len(xs):
+        return None
+    return out[0] if len(out) == 1 else ("boolop", op, tuple(out))
+
+
 def _never_none(t):
     """terms that cannot evaluate to None: text, non-None literals, containers, paths joined by os.path.join"""
     if t[0] == "const":
@@ -329,7 +351,7 @@ def _never_none(t):
 def canon(t):
     """spelling-independent forms of string building and of sort keys (see the module docstring)"""
     def is_str(x):
-        return (x[0] == "const" and isinstance(x[1], str)) or x[0] == "fmt"
+        return (x[0] == "const" and isinstance(x[1], str)) or x[0] == "fmt" or (x[0] in ("ifexp", "gate") and is_str(x[2]) and is_str(x[3]))
 
     def fn(x):
         k = x[0]
@@ -363,6 +385,30 @@ def canon(t):
                     return ("unary", "not", c_) if x[1][0] == "is not" else c_
             if len(other_) == 1 and _never_none(other_[0]):
                 return ("const", x[1][0] == "is not")
+        if k == "sub" and x[2][0] == "const" and isinstance(x[2][1], str) and x[1][0] == "call" and x[1][1][0] == "attr" \
+                and x[1][1][2] == "groupdict" and not x[1][2] and not x[1][3]:
+            return ("call", ("attr", x[1][1][1], "group"), (x[2],), ())          # m.groupdict()["k"] is m.group("k")
+        if k == "idx" and isinstance(x[2], int) and x[1][0] == "call" and x[1][1][0] == "attr" and x[1][1][2] == "group" \
+                and len(x[1][2]) > 1 and x[2] < len(x[1][2]) and not x[1][3]:
+            return ("call", x[1][1], (x[1][2][x[2]],), ())                      # m.group("a", "b")[1] is m.group("b")
+        if k == "call" and x[1] in (("global", "set"), ("global", "frozenset")) and len(x[2]) == 1 and not x[3] and x[2][0][0] == "comp" \
+                and x[2][0][1] in ("gen", "list") and x[1][1] == "set":
+            return ("comp", "set") + x[2][0][2:]          # set(<comprehension>) is the set comprehension
+        if k == "fmt":
+            # a piece chosen by a condition: the text chosen by that condition
+            for i_, pc in enumerate(x[1]):
+                if pc[0] in ("ifexp", "gate"):
+                    a_ = canon(("fmt", x[1][:i_] + (pc[2],) + x[1][i_ + 1:]))
+                    b_ = canon(("fmt", x[1][:i_] + (pc[3],) + x[1][i_ + 1:]))
+                    return (pc[0], pc[1], a_, b_)
+        if k == "boolop":
+            sb = simplify_boolop(x)
+            if sb is not None:
+                return sb
+        if k == "fmt" and all(pc[0] == "const" and isinstance(pc[1], str) for pc in x[1]):
+            return ("const", "".join(pc[1] for pc in x[1]))          # text built from literals only
+        if k == "call" and x[1] == ("global", "getattr") and len(x[2]) == 2 and not x[3] and x[2][1][0] == "const" and isinstance(x[2][1][1], str):
+            return ("attr", x[2][0], x[2][1][1])          # getattr(x, "name") with a name known only after folding
         if k == "call" and x[1] in (("global", "any"), ("global", "all")) and len(x[2]) == 1 and not x[3] \
                 and x[2][0][0] in ("list", "tuple") and 0 < len(x[2][0][1]) <= 16 and not any(e[0] == "starred" for e in x[2][0][1]):
             # any([a, b]) has the truth value of (a or b)
@@ -447,7 +493,8 @@ def canon(t):
             r = fmt(*x[1])
             return r if r != x else None
         if k == "binop" and x[1] == "+" and (is_str(x[2]) or is_str(x[3])) and not (x[2][0] == "const" and x[3][0] == "const"):
-            return fmt(x[2], x[3])
+            r_ = fmt(x[2], x[3])
+            return fn(r_) or r_          # (a conditional piece is lifted out of the new text as well)
         if k == "call" and x[2] and x[2][0][0] == "comp" and x[2][0][1] == "list" and (
                 (x[1][0] == "global" and x[1][1] in _CONSUMERS) or (x[1][0] == "attr" and x[1][2] in ("join", "extend", "update"))):
             # a list comprehension consumed on the spot is as good as a generator expression
@@ -822,9 +869,15 @@ class Extractor(object):
         if handled and len(handled) < len(exits):
             # a return inside an exception handler: taken when the exception occurred, the other exits when it did not
             exc = handled[0][1][0][0]
-            yes = [(v, gs[1:]) for v, gs in handled if gs[0][0] == exc]
-            no = [(v, gs) for v, gs in exits if not (gs and gs[0] == (exc, True))]
-            if yes and no:
+            idx = [i for i, (v, gs) in enumerate(exits) if gs and gs[0] == (exc, True)]
+            # exits written before the handler's are the try body's (reached without the exception only); exits after it are the
+            # common tail, reached either way
+            pre = [e for e in exits[:idx[0]]]
+            tail = [e for e in exits[idx[-1] + 1:]]
+            mid_other = [e for i, e in enumerate(exits) if idx[0] < i < idx[-1] and i not in idx]
+            yes = [(v, gs[1:]) for v, gs in handled if gs[0][0] == exc] + tail
+            no = pre + tail
+            if yes and no and not mid_other:
                 return ("ifexp", exc, cls._decision(yes, chain_ok), cls._decision(no, chain_ok))
         first = exits[0][1]
         if first and all(gs and gs[0][0] == first[0][0] for _, gs in exits):
@@ -993,6 +1046,16 @@ class Extractor(object):
                         continue
                 kws.append((k.arg or "**", E(k.value)))
             kws = tuple(kws)
+            if func[0] == "ifexp" and not bound:
+                # the callee was chosen before (a handler picked by a helper): each alternative is called under the condition
+                # it was chosen under
+                def call_tree(fn_t, gs):
+                    if fn_t[0] == "ifexp":
+                        return ("ifexp", fn_t[1], call_tree(fn_t[2], gs + ((fn_t[1], True),)), call_tree(fn_t[3], gs + ((fn_t[1], False),)))
+                    ct = ("call", fn_t, tuple(args), kws)
+                    self.emit("call", None, ct, gs, loops, node)
+                    return ct
+                return call_tree(func, guards)
             t = ("call", func, tuple(args), kws)
             if func == ("global", "getattr") and len(args) == 2 and not kws and args[1][0] == "const" and isinstance(args[1][1], str):
                 return ("attr", args[0], args[1][1])      # getattr(x, "name") is x.name
